@@ -18,6 +18,20 @@ NATIVE_REPR = re.compile(r'<code object (.+?) at 0x[0-9a-f]+, file "(.*?)", line
 PORTABLE_REPR = re.compile(r'<Code\w+ code object (.+?) at 0x[0-9a-f]+, file (.*?)>, line (\d+)')
 
 
+def _no_huge_ints(t):
+    """integers above the hosts' int->str digit limit cannot be listed by any route (the host's own dis cannot either)"""
+    k = t[0]
+    if k == "i" and isinstance(t[1], str) and (t[1].startswith("0x") or t[1].startswith("-0x") or len(t[1]) > 4000):
+        return ["i", "1234567890123456789012345"]
+    if k == "=":
+        return ["=", t[1], _no_huge_ints(t[2])]
+    if k in ("T", "L", "S", "Z"):
+        return [k, [_no_huge_ints(x) for x in t[1]]]
+    if k == "D":
+        return [k, [[_no_huge_ints(a), _no_huge_ints(b)] for a, b in t[1]]]
+    return t
+
+
 def _no_linebreaks(t):
     k = t[0]
     if k == "t":
@@ -139,6 +153,9 @@ class C07:
         res = Result()
         k = case.get("k")
         hosts = [h for h in case.get("hosts", []) if h in HOSTS]
+        if case.get("fmt", "classic") not in ("classic", "extended", "bytes") or hosts != list(case.get("hosts", [])):
+            res.reject = "malformed-case"
+            return res
         if k == "corpus":
             path = os.path.join(pd.CORPUS_DIR, case["path"])
             if not os.path.exists(path) or os.path.getsize(path) > (30000 if ctx.tier == "quick" else 300000):
@@ -158,6 +175,7 @@ class C07:
                 except Exception:
                     res.reject = "malformed-case"
                     return res
+                vals = [_no_huge_ints(t) for t in vals]
                 if v == "2.7":
                     # xdis prints Python 2 unicode constants unescaped; a raw line break inside one, together with
                     # the host-dependent element order of sets, moves text between listing lines (not C07's subject)
